@@ -603,7 +603,7 @@ func (c *c47ctx) concurrent(round int) {
 func c47() {
 	r := vk.Start("C47", "exploration")
 	c := &c47ctx{r: r, col: newCollector(), seen: map[string]struct{}{}}
-	n := r.Pick(20000, 400000)
+	n := r.Pick(12000, 400000)
 	helpers := []struct {
 		name string
 		f    func(int, *rand.Rand)
